@@ -323,15 +323,16 @@ KNOWN_OVERLAP = {"construct": "overlapping-ranges-sharing-rules"}
 
 def overlap_facts(prog, ds):
     """The one construct for which the implementation is known (known_findings.txt) not to follow the
-    property: two start..end pairs whose source extents overlap (one starts before the other has ended:
-    nested or interleaved) AND whose rule lists are not disjoint (a bare pair names every rule).  The
+    property: two start..end pairs whose source extents overlap in the statement stream (one starts before the
+    other has ended: nested or interleaved) AND whose rule lists are not disjoint (a bare pair names every rule).  The
     range set is one set: the end of the inner pair removes its rules from it, also for the outer pair.
     Call after prog.render().  Returns the facts for ctx.violation, or None."""
     rs = [d for d in ds if d["form"] == "range"]
     if len(rs) < 2:
         return None
     a, b = rs[0], rs[1]
-    (sa, ea), (sb, eb) = [tuple(prog.cline[id(p["obj"])] for p in d["placements"]) for d in (a, b)]
+    order = prog.comment_order()
+    (sa, ea), (sb, eb) = [tuple(order[id(p["obj"])] for p in d["placements"]) for d in (a, b)]
     if ea < sb or eb < sa:
         return None                      # one pair is closed before the other opens
     if a["rules"] and b["rules"] and not (set(a["rules"]) & set(b["rules"])):
